@@ -13,9 +13,13 @@ func c10Alphabet(thorough bool) []string {
 		"lsub:1:A:1", "lsub:1:B:1", "lbind:1:A:1", "lbind:1:B:1", "lsub:2:A:2",
 		"write:A:e1f1:L1lc:limit:ack:2", "write:B:e1f1:L2lc:limit:ack:2", "write:B:e1f1:L1lc:limit:ack:2", "write:A:e2f1:L2lc:limit:ack:2",
 		"disc:A", "disc:B", "entrm:A:1", "entrm:B:1", "entrm:A:2", "reconn:A", "reconn:B", "fire", "set:L1lc:2", "hs:A:B", "hs:B:A",
+		// re-announcement of an entity (also of one that is still known: its feature objects are replaced)
+		"entadd:A:1",
+		// nested addresses: removing the sub-entity [1,1] leaves the entries of its parent [1] alone and vice versa
+		"sub:A:e11f1:L1lc:lc:d", "bind:A:e11f1:L2lc:lc:d", "entrm:A:11", "sub:A:e1f1:L11lc:lc:d",
 	}
 	if thorough {
-		a = append(a, "entadd:A:1", "entadd:B:1", "lsub:2:B:2", "lbind:2:A:2", "sub:A:e1f2:L1lc:lc:d", "entrm:B:2", "set:L2lc:2")
+		a = append(a, "entadd:B:1", "lsub:2:B:2", "lbind:2:A:2", "sub:A:e1f2:L1lc:lc:d", "entrm:B:2", "set:L2lc:2")
 	}
 	return a
 }
